@@ -43,7 +43,7 @@ type closer func(storeName string)
 type tagMapping map[string]map[string]struct{} // map[TagName](Set of database Keys)
 
 type dbEntry struct {
-	Value []byte        `json:"value,omitempty"`
+	Value []byte        `json:"value"`
 	Tags  []storage.Tag `json:"tags,omitempty"`
 }
 
